@@ -70,3 +70,31 @@ Definition obj_rotate_pt (seq : list pstr) (sst : list chr) (turns : option Z)
 (* ComplexS.rotate_pairtable_loc(loc, n) = (wrap(loc[0] - n, self.size), loc[1]) *)
 Definition rotate_pairtable_loc (l : Z * Z) (n : Z) (size : nat) : Z * Z :=
   (wrap (fst l - n) (Z.of_nat size), snd l).
+
+(* ------------------------------------------------------------------ *)
+(* explicit turn counts of the two utility generators                   *)
+
+(* rotate_complex_pt(stab, ptab, turns): `turns` is None or any Python int;
+   `if turns > 0:` yields nothing for turns <= 0 *)
+Definition rotate_complex_pt_turns {A} (turns : option Z) (stab : list (list A)) (ptab : tab)
+  : list (list (list A) * tab) :=
+  rotate_complex_pt (match turns with None => length ptab | Some t => Z.to_nat t end) stab ptab.
+
+(* the loop body of rotate_complex_db (lists, join = False) *)
+Fixpoint db_convert (l : list (list (list pstr) * tab)) : res (list cplx) :=
+  match l with
+  | [] => Ok []
+  | (st, pt) :: r =>
+      dor nseq <- strand_table_to_sequence sPlus st;
+      dor rest <- db_convert r;
+      Ok ((nseq, pair_table_to_dot_bracket cP pt) :: rest)
+  end.
+
+(* rotate_complex_db(seq, sst, turns) *)
+Definition rotate_complex_db_turns (seq : list pstr) (sst : list chr) (turns : option Z)
+  : res (list cplx) :=
+  let stab := make_strand_table_list sPlus seq in
+  dor ptab <- make_pair_table cP [cD] sst;
+  if negb (forallb (fun xy => Nat.eqb (length (fst xy)) (length (snd xy))) (combine stab ptab))
+  then Err eAssert
+  else db_convert (rotate_complex_pt_turns turns stab ptab).
